@@ -364,7 +364,7 @@ fn check_func(rep: &mut Report, c: &Ctxt, seed: u64, nsets: usize, only: Option<
                         run_one(rep, c, &combo, t, &prog, &abi, &refsig, policy, &ptys, &params_in, &result_val, self_method && is_export(v));
                     }
                 }
-                if rep.samples.len() < rep.max_samples && nparams_flat > 16 && t == Tier::Judged {
+                if rep.samples.len() < rep.max_samples && t == Tier::Judged && (nparams_flat > 16 || nres_flat > 1 || h % 7 == 0) {
                     rep.sample(json!({"func": c.path, "combo": combo.name(), "flat_params": nparams_flat, "flat_results": nres_flat, "ir": shorten(&prog.dump(), 500)}));
                 }
             }
@@ -752,6 +752,9 @@ fn main() {
     });
     for p in parts {
         merge(&mut rep, p);
+    }
+    if rep.samples.is_empty() && !work.is_empty() {
+        rep.sample(json!({"fallback": "first scheduled function", "unit": units[work[0].0].label, "path": work[0].1.path}));
     }
     rep.write(&args.out());
 }
